@@ -33,6 +33,14 @@ def main():
         ctx.only = (r["rule"], r["construct"])
         print("replaying %s/%s" % ctx.only)
     mod.run(ctx)
+    # shared rule family: apply-to-all loops named per property have no early exit (engine/univ.py, rules/univ_tables.py)
+    from rules.univ_tables import T as UNIV
+    if pid in UNIV:
+        from engine import univ
+        from engine.pysrc import Repo
+        ctx.rule(pid + ".universal", "apply-to-all loops (every device / equation / model / record / field) have no break or return "
+                 "that cuts them short", len(UNIV[pid]))
+        univ.check(ctx, Repo(), pid + ".universal", UNIV[pid])
     st_missed = []
     if ctx.tier == "thorough" and not a.replay and not os.environ.get("VERIF_NO_SELFTEST"):
         # variant corpus: every breaking variant must be caught, every benign twin must stay silent
